@@ -107,6 +107,8 @@ fn run(args: &[String]) -> i32 {
     let mut n = 0usize;
     let mut ideal = 0usize;
     let all = arg_flag(args, "--all");
+    let xq = arg_value(args, "--xq").map(|s| s.to_string());
+    let xq_every: usize = arg_value(args, "--xq-every").and_then(|v| v.parse().ok()).unwrap_or(25);
     let _unused: HashMap<u8, u8> = HashMap::new();
     for_each_case(inp, |c| {
         let text = cps_to_string(&c["text"]);
@@ -180,7 +182,36 @@ fn run(args: &[String]) -> i32 {
         if ok {
             ideal += 1;
         }
-        if !ok || all || n % 10 == 0 {
+        // the caller's bindings as the command line tool takes them: xq --setns xmlns:e=<uri>
+        let mut with_xq = false;
+        if let Some(xq) = &xq {
+            if n % xq_every == 0 && ev["parsed"] == true {
+                with_xq = true;
+                let mut runs = vec![];
+                for (qi, q) in c["queries"].as_array().cloned().unwrap_or_default().iter().enumerate() {
+                    let uri = cps_to_string(&q["binds"][0][1]);
+                    let pre = cps_to_string(&q["binds"][0][0]);
+                    for k in 0..7usize {
+                        // the name tests 1..7 (the namespace-axis ones print nodes without a serialization)
+                        let expr = cps_to_string(&q["exprs"][k]);
+                        let a: Vec<String> = vec!["--no-indent".into(), "--xpath".into(), expr, "--setns".into(), format!("xmlns:{}={}", pre, uri)];
+                        let o = crate::cli::run_tool(xq, &a, &text);
+                        let sel: Vec<i64> = q["expect"][k]["v"].as_array().map(|v| v.iter().filter_map(|x| x.as_i64()).collect()).unwrap_or_default();
+                        let tree = c["tree"].clone();
+                        let t2 = text.clone();
+                        let rendered = guarded(move || crate::cli::render_selected(&t2, &tree, &sel)).unwrap_or(None);
+                        runs.push(json!({"b": qi + 1, "q": k + 1, "code": o.code, "stdout": string_to_cps(&o.stdout),
+                            "sel": q["expect"][k]["v"], "renderable": rendered.is_some(),
+                            "sel_out": string_to_cps(&rendered.unwrap_or_default())}));
+                    }
+                }
+                ev["xq"] = J::Array(runs);
+            }
+        }
+        if !with_xq {
+            ev["xq"] = json!([]);
+        }
+        if !ok || all || with_xq || n % 10 == 0 {
             writeln!(out, "{}", ev).unwrap();
         }
     });
